@@ -959,6 +959,74 @@ Lemma nth_lt_len {A} (l : list A) p x : nth_error l p = Some x -> p < length l.
 Proof. intros H. apply nth_error_Some. congruence. Qed.
 
 (* ------------------------------------------------------------------------- *)
+(** * [all_blank_before]: only blanks in front of a position *)
+
+(** A symbol that renders to blanks only: a blank byte.  A start delimiter begins with a
+    non-whitespace byte and an end delimiter's last character is not whitespace ([ds_ok] /
+    [de_ok]), so a delimiter never does. *)
+Definition sym_blank (x : sym) : bool := match x with B c => is_blank c | _ => false end.
+Definition a_all_blank_before (l : list sym) (j : nat) : bool := forallb sym_blank (firstn j l).
+
+Lemma ws_false_blank c : is_ws c = false -> is_blank c = false.
+Proof. intros H. apply ws_split in H. tauto. Qed.
+
+Lemma ds_not_blank ds : ds_ok ds -> forallb is_blank ds = false.
+Proof.
+  intros (d0 & ds' & -> & _ & Hw & _). cbn [forallb]. rewrite (ws_false_blank d0 Hw). reflexivity.
+Qed.
+
+Lemma de_not_blank de : de_ok de -> forallb is_blank de = false.
+Proof.
+  intros (d1 & lead & cs & -> & _ & Hw & _). rewrite forallb_app. cbn [forallb].
+  rewrite (ws_false_blank lead Hw). cbn [andb]. apply andb_false_r.
+Qed.
+
+Lemma rs_all_blank ds de : sp_ok ds de -> forall m,
+  forallb is_blank (rs ds de m) = forallb sym_blank m.
+Proof.
+  intros [Hs He]. induction m as [|x m IH]; [reflexivity|].
+  change (rs ds de (x :: m)) with (rsym ds de x ++ rs ds de m).
+  rewrite forallb_app, IH. cbn [forallb]. destruct x as [c| |]; cbn [rsym sym_blank].
+  - cbn [forallb]. rewrite andb_true_r. reflexivity.
+  - rewrite (ds_not_blank ds Hs). reflexivity.
+  - rewrite (de_not_blank de He). reflexivity.
+Qed.
+
+Lemma firstn_pos ds de l j : firstn (pos ds de l j) (rs ds de l) = rs ds de (firstn j l).
+Proof.
+  unfold pos. rewrite <- (firstn_skipn j l) at 2. rewrite rs_app.
+  rewrite firstn_app, Nat.sub_diag, firstn_all. cbn [firstn]. apply app_nil_r.
+Qed.
+
+Theorem all_blank_before_flat ds de l j : sp_ok ds de ->
+  all_blank_before (rs ds de l) (pos ds de l j) = a_all_blank_before l j.
+Proof.
+  intros Hsp. unfold all_blank_before, a_all_blank_before. rewrite firstn_pos.
+  apply rs_all_blank. exact Hsp.
+Qed.
+
+Lemma a_all_blank_before_nth : forall l j i x, a_all_blank_before l j = true -> i < j ->
+  nth_error l i = Some x -> sym_blank x = true.
+Proof.
+  unfold a_all_blank_before. induction l as [|y l IH]; intros j i x H Hi N; [destruct i; discriminate N|].
+  destruct j as [|j]; [lia|]. cbn [firstn forallb] in H. apply andb_true_iff in H. destruct H as [H1 H2].
+  destruct i as [|i]; cbn [nth_error] in N.
+  - inversion N; subst x. exact H1.
+  - apply (IH j i x H2); [lia | exact N].
+Qed.
+
+Lemma a_all_blank_before_brun l j : a_all_blank_before l j = true -> j <= length l -> brun l 0 j.
+Proof.
+  intros H Hj i _ Hi.
+  destruct (nth_error l i) as [x|] eqn:N; [|apply nth_error_None in N; lia].
+  pose proof (a_all_blank_before_nth l j i x H Hi N) as Hx.
+  destruct x as [c| |]; [exists c; reflexivity | discriminate Hx | discriminate Hx].
+Qed.
+
+Lemma pos_0 ds de l : pos ds de l 0 = 0.
+Proof. reflexivity. Qed.
+
+(* ------------------------------------------------------------------------- *)
 (** * The seam formatters and their hull *)
 
 Definition a_two_next (l : list sym) (j : nat) : option nat :=
@@ -1009,10 +1077,13 @@ Definition a_next_line_break_remover (l : list sym) (j : nat) : res (nat * nat) 
 Definition a_seam_formatters : list (list sym -> nat -> res (nat * nat)) :=
   [a_indent_remover; a_empty_line_remover; a_prev_line_break_remover; a_next_line_break_remover].
 
-Definition a_format_block (l : list sym) (j : nat) : res (nat * nat) :=
+Definition a_seam_hull_of (l : list sym) (j : nat) : res (nat * nat) :=
   foldM (fun (r : nat * nat) f =>
            '(a, b) <- f l j ;;
            Ok (Nat.min a (fst r), Nat.max b (snd r))) a_seam_formatters (j, j).
+Definition a_format_block (l : list sym) (j : nat) : res (nat * nat) :=
+  r <- a_seam_hull_of l j ;;
+  if (j <? snd r) && a_all_blank_before l (fst r) then Ok (0, snd r) else Ok r.
 
 (** Mapping an abstract range to the concrete one. *)
 Definition prange (ds de : str) (l : list sym) (r : nat * nat) : range :=
@@ -1077,10 +1148,10 @@ Proof.
   apply (IH (Nat.min x (fst r), Nat.max y (snd r))).
 Qed.
 
-Theorem format_block_flat ds de l j : sp_ok ds de -> head_ok l -> j <= length l ->
-  format_block (rs ds de l) (pos ds de l j) = mapr ds de l (a_format_block l j).
+Theorem seam_hull_of_flat ds de l j : sp_ok ds de -> head_ok l -> j <= length l ->
+  seam_hull_of (rs ds de l) (pos ds de l j) = mapr ds de l (a_seam_hull_of l j).
 Proof.
-  intros Hsp Hh Hj. unfold format_block, a_format_block.
+  intros Hsp Hh Hj. unfold seam_hull_of, a_seam_hull_of.
   change (pos ds de l j, pos ds de l j) with (prange ds de l (j, j)).
   apply (fb_fold_flat ds de l j seam_formatters a_seam_formatters).
   unfold seam_formatters, a_seam_formatters.
@@ -1136,15 +1207,44 @@ Proof.
     apply IH; [intros af' Hin; apply Hsub; right; exact Hin | cbn [fst]; lia | cbn [snd]; lia].
 Qed.
 
+Theorem a_seam_hull_of_in_len l j : j <= length l -> in_len l (a_seam_hull_of l j).
+Proof.
+  intros Hj. unfold a_seam_hull_of. apply a_fold_in_len; [exact Hj | auto | cbn; lia | cbn; lia].
+Qed.
+
 Theorem a_format_block_in_len l j : j <= length l -> in_len l (a_format_block l j).
 Proof.
-  intros Hj. unfold a_format_block. apply a_fold_in_len; [exact Hj | auto | cbn; lia | cbn; lia].
+  intros Hj. unfold a_format_block. pose proof (a_seam_hull_of_in_len l j Hj) as H.
+  destruct (a_seam_hull_of l j) as [[x y]|]; [|exact I]. cbn [bind fst snd]. cbn [in_len] in H.
+  destruct ((j <? y) && a_all_blank_before l x); cbn [in_len]; lia.
+Qed.
+
+Lemma pos_ltb ds de l j j' : ne2 ds de -> j <= length l -> j' <= length l ->
+  (pos ds de l j <? pos ds de l j') = (j <? j').
+Proof.
+  intros Hne H1 H2. pose proof (pos_lt_iff ds de l j j' Hne H1 H2) as H.
+  destruct (Nat.ltb_spec j j') as [L|L].
+  - apply Nat.ltb_lt. apply H. exact L.
+  - apply Nat.ltb_ge. destruct (Nat.lt_ge_cases (pos ds de l j) (pos ds de l j')) as [L'|L']; [|exact L'].
+    apply H in L'. lia.
+Qed.
+
+Theorem format_block_flat ds de l j : sp_ok ds de -> head_ok l -> j <= length l ->
+  format_block (rs ds de l) (pos ds de l j) = mapr ds de l (a_format_block l j).
+Proof.
+  intros Hsp Hh Hj. pose proof (sp_ok_ne ds de Hsp) as Hne.
+  unfold format_block, a_format_block. rewrite (seam_hull_of_flat ds de l j Hsp Hh Hj).
+  pose proof (a_seam_hull_of_in_len l j Hj) as Hin.
+  destruct (a_seam_hull_of l j) as [[x y]|]; [|reflexivity]. cbn [in_len] in Hin. destruct Hin as [Hx Hy].
+  cbn [mapr bind prange fst snd].
+  rewrite (pos_ltb ds de l j y Hne Hj Hy), (all_blank_before_flat ds de l x Hsp).
+  destruct ((j <? y) && a_all_blank_before l x); reflexivity.
 Qed.
 
 (** The abstract hull panics exactly at a continuation byte. *)
-Theorem a_format_block_ok l j : a_boundary l j = true -> exists r, a_format_block l j = Ok r.
+Theorem a_seam_hull_of_ok l j : a_boundary l j = true -> exists r, a_seam_hull_of l j = Ok r.
 Proof.
-  intros Hb. unfold a_format_block, a_seam_formatters. cbn [foldM].
+  intros Hb. unfold a_seam_hull_of, a_seam_formatters. cbn [foldM].
   assert (forall (r : res (nat * nat)) (k : nat * nat -> res (nat * nat)),
             (exists x, r = Ok x) -> (forall x, exists y, k x = Ok y) -> exists y, bind r k = Ok y) as Hbind.
   { intros r k [x ->] Hk. apply Hk. }
@@ -1160,6 +1260,12 @@ Proof.
     destruct (a_two_next l j); eauto. }
   destruct H1 as [[x1 y1] ->], H2 as [[x2 y2] ->], H3 as [[x3 y3] ->], H4 as [[x4 y4] ->].
   cbn [bind]. eauto.
+Qed.
+
+Theorem a_format_block_ok l j : a_boundary l j = true -> exists r, a_format_block l j = Ok r.
+Proof.
+  intros Hb. unfold a_format_block. destruct (a_seam_hull_of_ok l j Hb) as [r ->]. cbn [bind].
+  destruct ((j <? snd r) && a_all_blank_before l (fst r)); eauto.
 Qed.
 
 (* ------------------------------------------------------------------------- *)
@@ -1237,20 +1343,13 @@ Fixpoint a_block_loop (fuel : nat) (l : list sym) (end_pos current_pos ofs len :
   end.
 
 Definition a_block_indent (l : list sym) (a b : nat) : list (nat * nat) :=
-  let ofs := match a_prev_lb l a true with Some p => a - p - 1 | None => 0 end in
+  let ofs := match a_prev_lb l a true with
+             | Some p => a - p - 1
+             | None => if a_all_blank_before l a then a else 0
+             end in
   let c := match a_next_lb l a false with Some p => S p | None => length l end in
   let first := a_get_indent_len l c in
   a_block_loop (S (length l)) l b c ofs (first - ofs) [].
-
-Lemma pos_ltb ds de l j j' : ne2 ds de -> j <= length l -> j' <= length l ->
-  (pos ds de l j <? pos ds de l j') = (j <? j').
-Proof.
-  intros Hne H1 H2. pose proof (pos_lt_iff ds de l j j' Hne H1 H2) as H.
-  destruct (Nat.ltb_spec j j') as [L|L].
-  - apply Nat.ltb_lt. apply H. exact L.
-  - apply Nat.ltb_ge. destruct (Nat.lt_ge_cases (pos ds de l j) (pos ds de l j')) as [L'|L']; [|exact L'].
-    apply H in L'. lia.
-Qed.
 
 Lemma pos_eqb ds de l j j' : ne2 ds de -> j <= length l -> j' <= length l ->
   (pos ds de l j =? pos ds de l j') = (j =? j').
@@ -1324,9 +1423,16 @@ Proof.
   rewrite (prev_lb_flat ds de l true Hsp Hh a Ha).
   assert (match option_map (pos ds de l) (a_prev_lb l a true) with
           | Some p => x <- csub (pos ds de l a) p ;; csub x 1
-          | None => Ok 0
-          end = Ok (match a_prev_lb l a true with Some p => a - p - 1 | None => 0 end)) as Hofs.
-  { destruct (a_prev_lb l a true) as [p|] eqn:F; [|reflexivity]. cbn [option_map].
+          | None => Ok (if all_blank_before (rs ds de l) (pos ds de l a) then pos ds de l a else 0)
+          end = Ok (match a_prev_lb l a true with
+                    | Some p => a - p - 1
+                    | None => if a_all_blank_before l a then a else 0
+                    end)) as Hofs.
+  { destruct (a_prev_lb l a true) as [p|] eqn:F; cbn [option_map].
+    2:{ rewrite (all_blank_before_flat ds de l a Hsp).
+        destruct (a_all_blank_before l a) eqn:AB; [|reflexivity]. f_equal.
+        rewrite (pos_brun ds de l 0 a ltac:(lia) (a_all_blank_before_brun l a AB Ha)).
+        rewrite pos_0. lia. }
     apply a_prev_lb_some in F. destruct F as (F1 & F2 & F3).
     rewrite (pos_brun ds de l p a ltac:(lia) (F3 eq_refl)).
     rewrite csub_le by lia. cbn [bind]. rewrite csub_le by lia. f_equal. lia. }
